@@ -173,12 +173,12 @@ Inductive label : Type :=
 | LRet (r : nat) (res : tres)
 | LExt
 (* hidden *)
-| LSetErr (t : nat)
+| LSetErr (t : nat) (r : tres)   (* TerminateGuard::set_err(r) by Task::run of t / its PanicReporter *)
 | LDrop (t : nat)
 | LProp (s : nat).
 
 Definition is_visible (l : label) : bool :=
-  match l with LSetErr _ | LDrop _ | LProp _ => false | _ => true end.
+  match l with LSetErr _ _ | LDrop _ | LProp _ => false | _ => true end.
 
 Definition tres_eqb (a b : tres) : bool :=
   match a, b with
@@ -287,14 +287,13 @@ Definition exec (p : prog) (st : state) (l : label) : option state :=
         end
       else None
   | LExt => Some {| tasks := tasks st; scopes := scopes st; ext := true |}
-  | LSetErr t =>
+  | LSetErr t r =>
       match ph (tget st t) with
-      | PEnded r =>
-          match r with
-          | ROk => None
-          | _ => let s := scope_of p t in
-                 Some (set_ph (sset st s (set_err (sget st s) r)) t (PErrSet r))
-          end
+      | PEnded r' =>
+          if tres_eqb r r' && negb (tres_eqb r ROk) then
+            let s := scope_of p t in
+            Some (set_ph (sset st s (set_err (sget st s) r)) t (PErrSet r))
+          else None
       | _ => None
       end
   | LDrop t =>
@@ -348,7 +347,7 @@ Definition allowed (p : prog) (win : list (nat * nat)) (st : state) (t : nat) : 
 Definition hidden_task (p : prog) (win : list (nat * nat)) (st : state) (t : nat) : option label :=
   match ph (tget st t) with
   | PEnded ROk => Some (LDrop t)
-  | PEnded _ => if allowed p win st t then Some (LSetErr t) else None
+  | PEnded r => if allowed p win st t then Some (LSetErr t r) else None
   | PErrSet _ => Some (LDrop t)
   | _ => None
   end.
